@@ -98,6 +98,7 @@ def _short(v, n=400):
 
 # ---------------------------------------------------------------- generated source capture
 SOURCES = []
+EXECS = []  # (source, globals dict) of every exec
 
 
 def install_exec_shim():
@@ -116,6 +117,7 @@ def install_exec_shim():
     def rec_exec(code, g=None, l=None):
         if isinstance(code, str):
             SOURCES.append(code)
+            EXECS.append((code, g))
         if g is None:
             f = sys._getframe(1)
             return builtins.exec(code, f.f_globals, f.f_locals)
